@@ -27,7 +27,7 @@ const preamble = `(declare-sort Str 0)
 (declare-fun s.chr (Int) Str)
 (assert (forall ((c Int)) (! (and (= (s.len (s.chr c)) 1) (=> (and (<= 0 c) (<= c 255)) (= (s.at (s.chr c) 0) c))) :pattern ((s.chr c)))))
 (assert (= (s.len s.empty) 0))
-(assert (forall ((s Str)) (! (>= (s.len s) 0) :pattern ((s.len s)))))
+(assert (forall ((s Str)) (! (and (>= (s.len s) 0) (<= (s.len s) 1152921504606846976)) :pattern ((s.len s)))))
 (assert (forall ((s Str)) (! (=> (= (s.len s) 0) (= s s.empty)) :pattern ((s.len s)))))
 (assert (forall ((s Str) (i Int)) (! (and (<= 0 (s.at s i)) (<= (s.at s i) 255)) :pattern ((s.at s i)))))
 (assert (forall ((a Str) (b Str)) (! (= (s.len (s.cat a b)) (+ (s.len a) (s.len b))) :pattern ((s.cat a b)))))
